@@ -177,7 +177,7 @@ reg(
     "evaluated as a function of the parameters) and in the row/column of variable_metadata_function, so both the "
     "affine-rebuild branch and the non-affine branch of that function are forced; Python types of Integer/Boolean "
     "variables and their literal attributes are checked.",
-    "Finite parameter grid; array attributes whose *elements* depend on parameters are outside the alphabet.",
+    "Finite parameter grid.",
 )
 
 reg(
@@ -302,7 +302,7 @@ reg(
     "reference: union-find connection sets over (connector, inside/outside), potential equalities, flow sums with "
     "inside + / outside -, zero for flows in no connection; the flat variables must be exactly the connector "
     "variables with their prefixes (no connector symbol survives).",
-    "Connector names are chosen so that one flat name is a proper prefix of another (c1.p / c1.p2, t / t2). Scalar connector variables only (no arrays of connectors, no expandable / stream connectors); self-connections "
+    "Connector names are chosen so that one flat name is a proper prefix of another (c1.p / c1.p2, t / t2). Scalar connector variables (arrays of connectors: see the array family below; no expandable / stream connectors); self-connections "
     "connect(a, a) are outside the alphabet.",
 )
 
@@ -802,7 +802,7 @@ CHECKS["C13"]["text"] = (
 )
 
 CHECKS["C13"]["note"] = (
-    'Finite parameter grid; array attributes whose *elements* depend on parameters are outside the alphabet. '
+    'Finite parameter grid. '
     'Histories: a simplify() call that raises ends that history without a verdict (counted); attributes do not '
     'mention constants; the aliased pair has default attributes (no alias-merge rule assumed); '
     'eliminate_constant_assignments and eliminable_variable_expression are not among the events.'
@@ -1178,7 +1178,7 @@ CHECKS["C13"]["text"] = (
 )
 
 CHECKS["C13"]["note"] = (
-    'Finite parameter grid; array attributes whose *elements* depend on parameters are outside the alphabet. '
+    'Finite parameter grid. '
     'Histories: a simplify() call that raises ends that history without a verdict (counted); attributes do not '
     'mention constants; the aliased pair has default attributes (no alias-merge rule assumed); '
     'eliminate_constant_assignments and eliminable_variable_expression are not among the events.'
@@ -1344,4 +1344,112 @@ CHECKS["C18"]["note"] = (
     'scalars, 3-D+ arrays, factor_and_simplify_equations / reduce_affine_expression and three or more switches are '
     'not covered; delay states are accepted as N[i] or N[i,1]. Values only on the grid. One defect family is '
     'reported under a fixed signature (component-parameter attribute in a component array), see known_findings.'
+)
+
+# ---- round 3 of seeded changes (see DESIGN.md section 9) ---------------------------------------------------
+CHECKS["C20"]["text"] += (
+    " Since the third seeded round: the model folder's path is a string prefix of both library folders' paths "
+    "(model, model_lib, model_lib2); the quick option alphabet is {plain, simp, simp_iter, elim_a, elim_b} where "
+    "simp = detect_aliases + eliminate_constant_assignments + replace_constant_* + factor_and_simplify_equations and "
+    "simp_iter adds iterative_simplification -- an option Model.simplify honours but the table of default options "
+    "does not list -- and Main has a chain (f0 = 0; f1 = 1; f0 = fz - fh; fh = f1) that only the iterated "
+    "simplification reduces fully, so the two differ in the compiled model."
+)
+CHECKS["C01"]["text"] += (
+    " Layout faults since the third seeded round also include 'models-retyped' / 'metadata-retyped': the table is "
+    "replaced by one with the same column names, order and primary key but other declared types (last_hit TEXT, "
+    "txt_hash VARCHAR, value BLOB), keeping its rows."
+)
+CHECKS["C12"]["text"] += (
+    " Since the third seeded round: two more subscript forms, z(v) and z(v)+v with z an Integer function holding an "
+    "if-expression (piecewise constant / piecewise affine in the loop variable, slope 0 resp. 1 almost everywhere; "
+    "quick: alone and next to v, v+1, v-1, thorough: in every pair) and the loop-body kind 'call2' in which every "
+    "differently subscripted element goes through the same user function g (g(y[s1]) + 2*g(y[s2]))."
+)
+CHECKS["C12"]["note"] += (
+    " An if-expression written inline in a subscript is rejected by pymoca under every setting (get_integer: "
+    "'Unexpected node type IfExpression') and is therefore outside the alphabet."
+)
+CHECKS["C15"]["text"] += (
+    " Two further families, C15 only: (H) a second state d defined algebraically (d = 3*a1 | 3*a1 + p | a1 | -a1; der(d) "
+    "= 1 - a2 | u - a2; a1 = 2*a2 | a2 | 2*a2 + u; der(s) = a2 + u) x all 24 equation orders x "
+    "eliminable_variable_expression in {d, d|a1, [da].*, a1, d|a2, a.*} x {expand_mx, + detect_aliases, all switches on; "
+    "thorough also all-on minus detect_aliases / minus iterative_simplification} (1 728 cases quick): eliminating d "
+    "differentiates its definition and promotes a1 to a state in the middle of the pass; (I) "
+    "eliminable_variable_expression meets recorded aliases: der(s) = a3 + u; an alias equation only detect_aliases "
+    "recognises (2*a1 - 2*a2 = 0 | a1 - a2 = 0 | a1 + a2 = 0); a1 = 2*a3; a3 + a2 = 3 | a2 = 3 - a3; all 24 orders x "
+    "patterns {a1, a2, a[12], a3, a.*} x {expand_mx + detect_aliases, + iterative_simplification, all on} (2 160 cases)."
+)
+
+CHECKS["C08"]["technique"] = (
+    'level subsets x spellings x scoped expressions of one or two modified items, compared with a reference '
+    'flattener (outer wins per item)'
+)
+
+CHECKS["C08"]["text"] = (
+    'A modified element 1-2 (thorough 1-3) component levels deep under a two-level extends chain, an enclosing '
+    'component and the component above it. Single item: one item (a parameter value; start, min, max, nominal, '
+    'fixed, unit) with every subset of <= 3 (thorough: all; <= 4 at depth 3) of the levels that can modify it -- '
+    'type definition, declaration, enclosing components of the declaring hierarchy, inner and outer extends clause, '
+    'enclosing component, the component above it -- each present level carrying a value that identifies it; the '
+    'expression of one level (or none) is a name q that exists with a different value in every class, so the scope '
+    'of resolution shows; every dot / parenthesis spelling of the links of one level (thorough: two levels). '
+    'Several items: every pair of levels modifying different items of the element, one each (quick: every pair with '
+    'the value on one side, each attribute with its cyclic successor, value / start with the same item of a sibling '
+    'element; thorough: all 42 pairs, all 49 with an item of the sibling, every triple of levels with two items), '
+    'as the base program plus each single deviation (q at one level, the attribute link of one level spelled the '
+    'other way; thorough: q x every spelling of <= 2 levels). Joint: one level carries two items at once as one '
+    'node x(a = .., b = ..) / x(a = ..) = v or as two arguments (thorough: plus a second level carrying one of '
+    'them). A program is either rejected by pymoca or its flat model equals the reference (per item the outermost '
+    'level that mentions it, expression resolved where written; nothing else lost) in every variable, attribute and '
+    'equation; accepted members of a spelling group must agree.'
+)
+
+CHECKS["C08"]["note"] = (
+    'Rejection (any exception) is accepted for every spelling, as the statement allows (pymoca rejects every '
+    'nested-component spelling t(m(x ..)); the new families enumerate those in thorough only); a variant names the '
+    'class of the modified component like the class that contains it (scopes must be told apart by class, not by '
+    'short name); one item per level except in the joint family (two); redeclare, each, array-valued and final '
+    'modifications are outside the alphabet.'
+)
+
+CHECKS["C13"]["text"] += (
+    " Since the third seeded round, part (1) also has forms of degree >= 3 in distinct parameters (second derivative "
+    "zero at a point, not identically; further parameters s, t): p*q*s, p*q*s+p, p*q*s/4-q, p*q*s*t, p*q*(p-q), "
+    "(p-1)*(q-1)*(s-1), each alone in its model, and array variables (1-D and 2x3 algebraic; thorough also 2x2 and state "
+    "/ input / parameter 2x3) with attributes whose elements differ and depend on parameters: an array parameter a of "
+    "the variable's shape as a, 3*a, -(p*a), p*q*a, and array constructors {3*p+q, 4*p+q, ...} and {1.5, 4*p, p*q-2, "
+    "...}, on every attribute: 1 830 (thorough 4 506) programs. Histories: 43 (thorough 90) models, 17 185 / 407 810 "
+    "histories; the events gain expand_vectors + expand_mx; history forms add k*p*q; four (thorough 20) array models "
+    "with max / min / start / nominal all array-valued, whose parameter rows (a, after expansion a[i,j]) are compared "
+    "as well."
+)
+CHECKS["C13"]["note"] += (
+    " Array constructors have expressions or literals as elements, not bare component references ({p, q} makes "
+    "pymoca's generator raise KeyError anywhere, also in equations); arrays of more than two dimensions and arrays of "
+    "components are outside the alphabet (element-wise parameter-dependent array attributes are now inside it); grid "
+    "points have p, q, s, t != 0, 1. replace_parameter_values / replace_constant_values raise on a 2-D parameter / "
+    "constant with a literal value: such histories are cut and counted (61 quick), not judged."
+)
+
+CHECKS["C09"]["text"] += (
+    " Array family (since the third seeded round): the endpoints are ELEMENTS of connector arrays -- Comp c1; Tank t "
+    "(Pin ports[3]; Pin top); Pin e[2] with endpoints c1.p, t.ports[1..3], t.top (inside; the subscript of t.ports[k] "
+    "sits in the second index group of the flat reference) and e[1], e[2] (outside), every sequence of <= 2 (thorough "
+    "3; 2 with two potentials and two flows) clauses; and arrays of components Comp b[2]; Tank tt[2]; Pin e[2] with 8 "
+    "endpoints such as b[2].p, tt[2].ports[1] (flat variables of dimensions (2,), (2, 3)), <= 1 (2) clauses: 1 864 "
+    "array cases quick. The reference for this family is built in the check (union-find over (element, "
+    "inside/outside), potentials equal, signed flow sums, zero for the flows of every element in no connection); "
+    "pymoca's equations are scalarised (x[k] = one unknown per element, a whole-array equation such as e.i = 0 = one "
+    "row per element) and compared by the same exact row-space equality; the flat variables must have the declared "
+    "dimensions."
+)
+CHECKS["C09"]["note"] += (
+    " Connect clauses name scalar connectors or single elements of connector arrays with literal subscripts and "
+    "literal dimensions; whole-array clauses connect(t.ports, e), dimensions given by parameters, expandable / stream "
+    "connectors and self-connections are outside the alphabet. Open known finding "
+    "unconnected-array-element-flow-not-zero: never-connected elements of a partly connected connector array get no "
+    "'= 0' equation (a TODO in pymoca's expand_connectors says so); it is reported under that signature only when "
+    "adding exactly those rows makes the two systems equal, so every other fault in an array model keeps a general "
+    "signature (1 704 of the 1 864 quick array cases have a partly connected array)."
 )
